@@ -246,7 +246,10 @@ func coneOfInfluence(hyps []string, goal string, decls map[string]bool) []string
 			if keep[i] {
 				continue
 			}
-			hit := len(syms[i]) == 0
+			// only the (quantified) well-formedness facts are pruned by relevance; path
+			// conditions are always kept (an infeasible path must stay refutable)
+			h := hyps[i]
+			hit := len(syms[i]) == 0 || !(strings.HasPrefix(h, "(wfstr ") || strings.HasPrefix(h, "(wfsl ") || strings.HasPrefix(h, "(wfil "))
 			for _, s := range syms[i] {
 				if rel[s] {
 					hit = true
